@@ -236,6 +236,58 @@ func structureMutants(s *chain.Sim, p chain.BlockPlan, rng *rand.Rand) []mutant 
 			return true
 		}, false)
 	}
+	// ---- a renewal whose rollover alone is bounded, but not its sum with the inputs
+	if b.V2 != nil {
+		add("v2:renewal-rollover-overflow", func(mb *types.Block, _ *consensus.V1BlockSupplement) bool {
+			for _, e := range s.St.SortedSC() {
+				if e.MaturityHeight > s.ChildHeight() || e.SiacoinOutput.Value.IsZero() || !s.Spendable(e.SiacoinOutput.Address, true) {
+					continue
+				}
+				used := false
+				for _, t := range mb.V2.Transactions {
+					for _, in := range t.SiacoinInputs {
+						used = used || in.Parent.ID == e.ID
+					}
+				}
+				for _, t := range mb.Transactions {
+					for _, in := range t.SiacoinInputs {
+						used = used || in.ParentID == e.ID
+					}
+				}
+				if used {
+					continue
+				}
+				rn := &types.V2FileContractRenewal{RenterRollover: types.MaxCurrency}
+				if rng.Intn(2) == 0 {
+					rn.RenterRollover, rn.HostRollover = types.ZeroCurrency, types.MaxCurrency
+				}
+				vt := types.V2Transaction{
+					SiacoinInputs:           []types.V2SiacoinInput{{Parent: e.Copy()}},
+					FileContractResolutions: []types.V2FileContractResolution{{Resolution: rn}},
+				}
+				if !s.ResignV2(&vt) {
+					return false
+				}
+				mb.V2.Transactions = append(mb.V2.Transactions, vt)
+				return true
+			}
+			return false
+		}, true)
+	}
+	// ---- v1: the same parent listed many times (only detected by the signature check)
+	add("v1:duplicate-parent-sum", func(mb *types.Block, ms *consensus.V1BlockSupplement) bool {
+		for i := range mb.Transactions {
+			t := &mb.Transactions[i]
+			if len(t.SiacoinInputs) == 0 || len(t.StorageProofs) > 0 {
+				continue
+			}
+			for k := 0; k < 200; k++ {
+				t.SiacoinInputs = append(t.SiacoinInputs, t.SiacoinInputs[0])
+			}
+			return s.ResignV1(t)
+		}
+		return false
+	}, true)
 	// ---- v2 transactions
 	for i, t := range b.V2Transactions() {
 		i := i
